@@ -440,3 +440,61 @@ package adt
 //@ lemma flags_join_acu: forall a, b, c conjunctFlags :: a | b == b | a && (a | b) | c == a | (b | c) && a | a == a
 //@ lemma mode_max_acu: forall a, b, c defaultMode :: maxMode(a, b) == maxMode(b, a) && maxMode(maxMode(a, b), c) == maxMode(a, maxMode(b, c)) && maxMode(a, a) == a && maxMode(a, maybeDefault) == a
 //@ lemma arc_min_acu: forall a, b, c ArcType :: minArc(a, b) == minArc(b, a) && minArc(minArc(a, b), c) == minArc(a, minArc(b, c)) && minArc(a, a) == a
+
+// ---- C05 / C02: labels (machine integers: arith bv) ----
+//@ spec func validLabelType(t FeatureType) bool { t == StringLabel || t == IntLabel || t == DefinitionLabel || t == HiddenLabel || t == HiddenDefinitionLabel || t == LetLabel }
+
+//@ func (FeatureType).IsDef
+//@   arith bv
+//@   ensures result == (f == DefinitionLabel || f == HiddenDefinitionLabel)
+//@ func (FeatureType).IsHidden
+//@   arith bv
+//@   ensures result == (f == HiddenLabel || f == HiddenDefinitionLabel)
+//@ func (FeatureType).IsLet
+//@   arith bv
+//@   ensures result == (f == LetLabel)
+
+//@ func (Feature).Typ
+//@   arith bv
+//@   ensures result == FeatureType(f & fTypeMask)
+//@ func (Feature).Index
+//@   arith bv
+//@   ensures result == int(f >> 4)
+//@ func (Feature).IsRegular
+//@   arith bv
+//@   ensures result == (FeatureType(f & fTypeMask) == IntLabel || FeatureType(f & fTypeMask) == StringLabel)
+//@ func (Feature).IsString
+//@   arith bv
+//@   ensures result == (FeatureType(f & fTypeMask) == StringLabel)
+//@ func (Feature).IsInt
+//@   arith bv
+//@   ensures result == (FeatureType(f & fTypeMask) == IntLabel)
+//@ func (Feature).IsDef
+//@   arith bv
+//@   ensures result == (FeatureType(f & fTypeMask) == DefinitionLabel || FeatureType(f & fTypeMask) == HiddenDefinitionLabel)
+//@ func (Feature).IsHidden
+//@   arith bv
+//@   ensures result == (FeatureType(f & fTypeMask) == HiddenLabel || FeatureType(f & fTypeMask) == HiddenDefinitionLabel)
+//@ func (Feature).IsLet
+//@   arith bv
+//@   ensures result == (FeatureType(f & fTypeMask) == LetLabel)
+
+//@ func errors.Newf
+//@   assumed A-int: formats a positioned error
+//@   ensures result != nil
+
+// (P) C02/C05: a label is (index, type) packed without truncation: the type and
+// the index are recovered exactly for every index in range, and an index out of
+// range is an error, never a wrapped label
+//@ func MakeLabel
+//@   arith bv
+//@   requires validLabelType(f)
+//@   ensures [range] (result1 == nil) == (0 <= index && index <= MaxIndex - 1)
+//@   ensures [typ] result1 == nil ==> FeatureType(result0 & fTypeMask) == f
+//@   ensures [index] result1 == nil ==> int64(result0 >> 4) == index
+
+// (P) C05: "hidden and definition fields are never restricted"
+//@ func allowedInClosed
+//@   arith bv
+//@   ensures result == (FeatureType(f & fTypeMask) == HiddenLabel || FeatureType(f & fTypeMask) == HiddenDefinitionLabel || FeatureType(f & fTypeMask) == DefinitionLabel || FeatureType(f & fTypeMask) == LetLabel)
+//@ lemma label_classes_partition: forall t FeatureType :: validLabelType(t) ==> ((t == IntLabel || t == StringLabel) != (t == DefinitionLabel || t == HiddenDefinitionLabel || t == HiddenLabel || t == LetLabel))
